@@ -87,9 +87,22 @@ def histories(maxlen, dedup):
         for i in range(nissued + 1):                           # +1: an identifier that was never issued
             yield from rec(prefix + [('del', i)], nissued, n - 1)
             yield from rec(prefix + [('get', i)], nissued, n - 1)
-        if prefix and prefix[-1][0] != 'iter':
+        if prefix and prefix[-1][0] not in ('iter', 'iter_mut'):
             yield from rec(prefix + [('iter',)], nissued, n - 1)
-    return rec([], 0, maxlen)
+            yield from rec(prefix + [('iter_mut',)], nissued, n - 1)
+    yield from rec([], 0, maxlen)
+    # beyond the exhaustive bound: n additions, then deletions of every subset in every order, then an observation
+    # (the shapes in which runs of tombstones precede / follow live items)
+    import itertools
+    for n in (2, 3, 4):
+        for r in range(1, n + 1):
+            for dels in itertools.permutations(range(n), r):
+                if n == 4 and list(dels) != sorted(dels):
+                    continue
+                for obs in (('iter',), ('iter_mut',)):
+                    h = [('add', None)] * n + [('del', i) for i in dels] + [obs]
+                    if len(h) > maxlen:
+                        yield h
 
 
 def run_history(I, ctx, c, hist):
@@ -170,9 +183,15 @@ def run_history(I, ctx, c, hist):
                 if v is not PANIC:
                     problems.append('step %d %s(%d) on a deleted / never issued identifier does not report absence (returned %r)' % (step, kind, i, v if kind == 'del' else 'an item'))
                     return problems
-        elif kind == 'iter':
+        elif kind in ('iter', 'iter_mut'):
             res = []
-            I.run(iter_fn, [cref], st.fork(), lambda s, v: res.append((s, v)))
+            fn_ = iter_fn
+            if kind == 'iter_mut':
+                cands = [f for f in I.by_last.get('iter_mut', []) if I.fninfo(f)['selfty'] == c.ty]
+                if len(cands) != 1:
+                    continue            # this collection has no mutable iterator
+                fn_ = cands[0]
+            I.run(fn_, [cref], st.fork(), lambda s, v: res.append((s, v)))
             s2, it = res[0]
             got = []
             from mirsmt.models import drain, to_iter
@@ -180,7 +199,7 @@ def run_history(I, ctx, c, hist):
             drain(I, s2, to_iter(I, s2, it), 0, lambda s3, x, acc, k_: k_(s3, acc + (conc(I.deref(s3, x).get('id')),)), lambda s3, p, acc: done.append(acc))
             want = [i for i, (p, alive, sg) in enumerate(slots) if alive]
             if list(done[0]) != want:
-                problems.append('step %d iter yields ids %r, expected the live items in creation order %r' % (step, list(done[0]), want))
+                problems.append('step %d %s yields ids %r, expected the live items in creation order %r' % (step, kind, list(done[0]), want))
     # finally: get(id) for an UNCONSTRAINED symbolic identifier (all 2^32 index values): the solver splits the range;
     # a live index must yield that very item, anything else must be reported absent
     if idkind is not None:
